@@ -312,7 +312,16 @@ class C03(Property):
             if cls_name == "PerturbedDroplet3DAxisSym" and (shift[0] or shift[1]):
                 pass
             else:
-                d2 = make_droplet(cls_name, {**spec["droplet"], "position": pos2.tolist()})
+                if sum(abs(int(k)) for k in shift) % 2:
+                    # the translated droplet as a user obtains it: a copy of the original that is moved; the original must stay
+                    # where it was (its render is repeated below)
+                    d2 = d.copy()
+                    d2.position = pos2
+                    again = np.asarray(d.get_phase_field(grid, vmin=vmin, vmax=vmax).data, float)
+                    ctx.require(np.array_equal(again, data, equal_nan=True), f"copy-not-independent:{cls_name}", "moving a copy of the droplet changed the render of the original")
+                    ctx.cls("translated-copy")
+                else:
+                    d2 = make_droplet(cls_name, {**spec["droplet"], "position": pos2.tolist()})
                 data2 = np.asarray(d2.get_phase_field(grid, vmin=vmin, vmax=vmax).data, float)
                 rolled = np.roll(data, shift, axis=tuple(range(geom.dim)))
                 kn = np.roll(knife | ~fin, shift, axis=tuple(range(geom.dim)))
